@@ -213,8 +213,8 @@ DoDelete(a, next) ==
   LET k == loc[a].k  seen == loc[a].obs[k]  code == DelCode(k, seen.uid)  pre == store[k] IN
   /\ hist' = H(Req(a, "delete", "Thing", k, code))
   /\ IF code = 200
-       THEN /\ store' = [store EXCEPT ![k] = NoKid]
-            /\ viol' = viol \cup (IF pre.ctrl # Me(a) THEN {"C02_WriteSafe(literal)"} ELSE {})
+       THEN /\ store' = [store EXCEPT ![k] = IF pre.deleting THEN pre ELSE NoKid]      \* a finalizer holds a terminating child
+            /\ viol' = viol \cup (IF pre.ctrl # Me(a) /\ ~pre.deleting THEN {"C02_WriteSafe(literal)"} ELSE {})
                             \cup (IF seen.ctrl # Me(a) /\ ~(k \in loc[a].mine) THEN {"C02_WriteSafeObserved"} ELSE {})
        ELSE UNCHANGED <<store, viol>>
   /\ Go(a, next, [loc[a] EXCEPT !.merr = @ \/ code = 409])
@@ -300,6 +300,9 @@ EnvPar(p, op, o) ==
   /\ par' = [par EXCEPT ![p] = o]
   /\ hist' = H([t |-> "env", op |-> op, kind |-> "Parent", name |-> p, obj |-> o])
   /\ UNCHANGED <<store, cache, pcache, pc, loc, des, viol, init0>>
+\* somebody deletes the child while a finalizer holds it: it stays, pending deletion
+EnvTerminate(k)   == /\ store[k].live /\ ~store[k].deleting
+                     /\ EnvKid(k, "terminate", Bump([store[k] EXCEPT !.deleting = TRUE])) /\ rvc' = rvc + 1 /\ UNCHANGED uidc
 EnvParentDeleting(p) == par[p].live /\ ~par[p].deleting
                         /\ EnvPar(p, "pdelete", [par[p] EXCEPT !.deleting = TRUE, !.rv = rvc + 1]) /\ rvc' = rvc + 1 /\ UNCHANGED uidc
 EnvParentReplace(p)  == par[p].live
@@ -311,7 +314,8 @@ Env ==
   /\ \/ \E k \in Kids : KidEnabled(k) /\ ( \/ EnvDeleteKid(k)
                                            \/ \E c \in {0, Foreign} : EnvRecreateKid(k, c)
                                            \/ \E c \in {0, Foreign} : EnvSetCtrl(k, c)
-                                           \/ \E lb \in {"none", "xy"} : EnvRelabel(k, lb) )
+                                           \/ \E lb \in {"none", "xy"} : EnvRelabel(k, lb)
+                                           \/ EnvTerminate(k) )
      \/ \E p \in { ParOf[a] : a \in Actors } : ParEnabled(p) /\ (EnvParentDeleting(p) \/ EnvParentReplace(p))
 Deliver ==
   /\ (cache # store \/ pcache # par) /\ \E a \in Actors : pc[a] = "idle"
